@@ -6,11 +6,18 @@
 #include <thread>
 #include <chrono>
 
-struct Op { int input = 0; int kind = 0; bool verbose = false; int stream = 1; int buffer = 0; int yields = 0; };   // kind 0 parse, 1 context_parse, 2 write_diag_str
+struct Op { int input = 0; int kind = 0; bool verbose = false; int stream = 1; int buffer = 0; int yields = 0;          // kind 0 parse, 1 context_parse, 2 write_diag_str
+            int fail_at = -1;                              // >= 0: the k-th rule functor call of this operation throws (the parse ends with that exception)
+            int nested_at = -1; int nested_input = 0; bool nested_verbose = false; };   // >= 0: the k-th rule functor call starts parse() on the same parser (re-entrant use)
 struct TCase { GCase g; std::vector<std::vector<Op>> threads; bool share_stream = false; };
 
-struct OpResult { bool threw = false; bool has = false; uint64_t value = 0; std::string err; std::vector<int> slots; std::vector<int> ctx_seen; std::string diag; };
-static bool same(const OpResult& a, const OpResult& b) { return a.threw == b.threw && a.has == b.has && a.value == b.value && a.err == b.err && a.slots == b.slots && a.ctx_seen == b.ctx_seen && a.diag == b.diag; }
+struct OpResult { bool threw = false; bool has = false; uint64_t value = 0; std::string err; std::vector<int> slots; std::vector<int> ctx_seen; std::string diag;
+                  bool nested_ran = false, nested_has = false, nested_threw = false; uint64_t nested_value = 0; std::string nested_err; };
+static bool same(const OpResult& a, const OpResult& b)
+{
+    return a.threw == b.threw && a.has == b.has && a.value == b.value && a.err == b.err && a.slots == b.slots && a.ctx_seen == b.ctx_seen && a.diag == b.diag &&
+           a.nested_ran == b.nested_ran && a.nested_has == b.nested_has && a.nested_threw == b.nested_threw && a.nested_value == b.nested_value && a.nested_err == b.nested_err;
+}
 
 template<class TT>
 static OpResult run_op(const GCase& c, const Op& op)
@@ -19,6 +26,15 @@ static OpResult run_op(const GCase& c, const Op& op)
     OpResult r;
     if (op.kind == 2) { r.diag = R::diag(); return r; }
     const gg::Input& in = c.inputs[size_t(op.input)];
+    // hooks: a functor call that throws / that starts another parse on the same parser object
+    tpl::g_functor_calls = 0; tpl::g_fail_at = op.fail_at; tpl::g_nested_at = -1; tpl::g_nested_hook = nullptr;
+    std::function<void()> nested = [&]()
+    {
+        Obs n = R::observe(c.inputs[size_t(op.nested_input)], op.nested_verbose, 2, 0);      // its own stream object
+        r.nested_ran = true; r.nested_has = n.has; r.nested_threw = n.threw; r.nested_value = n.value; r.nested_err = n.err;
+    };
+    if (op.nested_at >= 0 && size_t(op.nested_input) < c.inputs.size()) { tpl::g_nested_at = op.nested_at; tpl::g_nested_hook = &nested; }
+    struct Unhook { ~Unhook() { tpl::g_fail_at = -1; tpl::g_nested_at = -1; tpl::g_nested_hook = nullptr; } } unhook;
     if (op.kind == 0)
     {
         Obs o = R::observe(in, op.verbose, op.stream, op.buffer);
@@ -55,6 +71,9 @@ static Verdict check_c15(const TCase& tc, Stats& st)
     for (auto& in : c.inputs) { Expect e = expect_for(pr, in); if (e.rr.looped || e.rr.hit_rr) return Verdict::discard("looping-or-rr-input"); }
     try { R::inject(g); } catch (const std::exception&) { return Verdict::discard("construction-threw"); }
     PS& p = R::parser();
+    // inputs on which the grammar loops were discarded above: from here on every call returns quickly, and a call that does not return is the finding
+    eng::stall_reason() = "a call on the parser never returned (after an earlier call ended with an exception, from inside a functor, or concurrently)";
+    eng::watchdog_arm(60);
     std::vector<unsigned char> image(sizeof(PS)); std::memcpy(image.data(), &p, sizeof(PS));
     auto image_same = [&]() { return std::memcmp(image.data(), &p, sizeof(PS)) == 0; };
     // isolated results (each on the freshly injected, otherwise untouched object, one at a time)
@@ -143,6 +162,8 @@ struct P_C15
                 Op op; op.input = c.g.inputs.empty() ? 0 : int(ch.below(uint32_t(c.g.inputs.size())));
                 if (!deep_ones.empty() && ch.chance(1, 3)) op.input = int(first_deep + ch.below(uint32_t(deep_ones.size())));    // deep parses: the stacks outgrow their reservation
                 op.kind = int(ch.weighted({6, 3, 1})); op.verbose = ch.chance(1, 4); op.stream = int(ch.below(3)); op.buffer = int(ch.below(2)); op.yields = int(ch.below(4));
+                if (op.kind != 2 && ch.chance(1, 8)) op.fail_at = int(ch.below(4));
+                if (op.kind != 2 && ch.chance(1, 8)) { op.nested_at = int(ch.below(4)); op.nested_input = c.g.inputs.empty() ? 0 : int(ch.below(uint32_t(std::min<size_t>(c.g.inputs.size(), 40)))); op.nested_verbose = ch.chance(1, 2); }
                 ops.push_back(op);
             }
             c.threads.push_back(ops);
@@ -153,13 +174,13 @@ struct P_C15
     static vj::Value to_json(const Case& c)
     {
         vj::Value v = gcase_to_json(c.g); vj::Value th = vj::Value::array();
-        for (auto& t : c.threads) { vj::Value a = vj::Value::array(); for (auto& op : t) { vj::Value o = vj::Value::object(); o.set("input", op.input); o.set("kind", op.kind); o.set("verbose", op.verbose); o.set("stream", op.stream); o.set("buffer", op.buffer); o.set("yields", op.yields); a.push(o); } th.push(a); }
+        for (auto& t : c.threads) { vj::Value a = vj::Value::array(); for (auto& op : t) { vj::Value o = vj::Value::object(); o.set("input", op.input); o.set("kind", op.kind); o.set("verbose", op.verbose); o.set("stream", op.stream); o.set("buffer", op.buffer); o.set("yields", op.yields); if (op.fail_at >= 0) o.set("fail_at", op.fail_at); if (op.nested_at >= 0) { o.set("nested_at", op.nested_at); o.set("nested_input", op.nested_input); o.set("nested_verbose", op.nested_verbose); } a.push(o); } th.push(a); }
         v.set("threads", th); v.set("share_stream", c.share_stream); return v;
     }
     static Case from_json(const vj::Value& v)
     {
         Case c; c.g = gcase_from_json(v);
-        for (size_t t = 0; t < v.at("threads").size(); ++t) { std::vector<Op> ops; const auto& a = v.at("threads").at(t); for (size_t i = 0; i < a.size(); ++i) { Op op; op.input = int(a.at(i).at("input").as_int()); op.kind = int(a.at(i).at("kind").as_int()); op.verbose = a.at(i).at("verbose").as_bool(); op.stream = int(a.at(i).at("stream").as_int()); op.buffer = int(a.at(i).at("buffer").as_int()); op.yields = int(a.at(i).at("yields").as_int()); ops.push_back(op); } c.threads.push_back(ops); }
+        for (size_t t = 0; t < v.at("threads").size(); ++t) { std::vector<Op> ops; const auto& a = v.at("threads").at(t); for (size_t i = 0; i < a.size(); ++i) { Op op; op.input = int(a.at(i).at("input").as_int()); op.kind = int(a.at(i).at("kind").as_int()); op.verbose = a.at(i).at("verbose").as_bool(); op.stream = int(a.at(i).at("stream").as_int()); op.buffer = int(a.at(i).at("buffer").as_int()); op.yields = int(a.at(i).at("yields").as_int()); if (a.at(i).has("fail_at")) op.fail_at = int(a.at(i).at("fail_at").as_int()); if (a.at(i).has("nested_at")) { op.nested_at = int(a.at(i).at("nested_at").as_int()); op.nested_input = int(a.at(i).at("nested_input").as_int()); op.nested_verbose = a.at(i).at("nested_verbose").as_bool(); } ops.push_back(op); } c.threads.push_back(ops); }
         if (v.has("share_stream")) c.share_stream = v.at("share_stream").as_bool();
         return c;
     }
@@ -174,6 +195,7 @@ struct P_C15
     static Verdict eval(const Case& c, Stats& st)
     {
         for (auto& t : c.threads) for (auto& op : t) if (op.kind != 2 && (op.input < 0 || size_t(op.input) >= c.g.inputs.size())) return Verdict::discard("bad-op");
+        for (auto& t : c.threads) for (auto& op : t) if (op.nested_at >= 0 && (op.nested_input < 0 || size_t(op.nested_input) >= c.g.inputs.size())) return Verdict::discard("bad-op");
         return c.g.tmpl == 0 ? check_c15<TT36>(c, st) : check_c15<TT20>(c, st);
     }
 };
